@@ -9,6 +9,11 @@ from .. import gen, ref
 from ..harness import tol_close, short
 
 
+def env_repo():
+    from .. import env
+    return env.REPO
+
+
 class BaseProp(object):
     level = "exploration"
     configs = ("fallback", "emulated")
@@ -34,6 +39,9 @@ def pair_stream(rng, tier, n, k=0, K=1, with_w4=True, kw_fn=None, nmax=None):
         if w4 is not None and r < 0.25:
             case = next(w4)
             case["src"] = "W4"
+        elif tier == "thorough" and r < 0.27 and gen.real_case(rng, env_repo(), 2):
+            case = gen.real_case(rng, env_repo(), 2)
+            case["src"] = "W12"
         elif r < 0.55:
             case = gen.dyadic_pair(rng, tier, nmax)
             case["src"] = "W1"
@@ -238,7 +246,10 @@ def list_stream(rng, tier, n, k=0, K=1, kw_fn=None, nmin=2, nmax_trains=None):
     di = k + K * rng.randrange(5000)
     for idx in range(n):
         r = rng.random()
-        if r < 0.65:
+        if tier == "thorough" and r < 0.03 and gen.real_case(rng, env_repo(), max(nmin, 3)):
+            case = gen.real_case(rng, env_repo(), rng.randint(max(nmin, 3), max(nmin, 3) + 2), max_spikes=25)
+            case["src"] = "W12"
+        elif r < 0.65:
             case = gen.dyadic_list(rng, tier, nmin, nmax_trains)
             case["src"] = "W5d"
         elif r < 0.85:
